@@ -14,12 +14,12 @@ import (
 // State is the symbolic state at one program point.
 type State struct {
 	allocLow Term // lowest allocation id handed out so far on this path
-	pc     Term
-	cells  map[*Cell]Value
-	heap   map[string]Term // array name -> current version
-	ghost  map[string]Value
-	binds  map[string]Value
-	defers []deferred
+	pc       Term
+	cells    map[*Cell]Value
+	heap     map[string]Term // array name -> current version
+	ghost    map[string]Value
+	binds    map[string]Value
+	defers   []deferred
 }
 
 type deferred struct {
@@ -49,47 +49,50 @@ func (s *State) clone() *State {
 
 // Exec verifies one function (with inlined callees) and collects obligations.
 type Exec struct {
-	L      *Loaded
-	DB     *SpecDB
-	smt    *SMT
-	root   *Frame
-	arrays map[string]string // registry: array name -> sort (stable across passes)
-	grew   bool
-	obls   []*Obligation
-	notes  map[string]int // abstraction notes -> count
-	assumed map[string]int // assumed contracts used -> count
-	typeIDs map[string]int
-	typeOf  map[int]types.Type
-	nAlloc int
-	nCell  int
-	entry  *State
-	loopMods map[string]map[string]bool // loop key -> names of arrays / ghosts modified by the body (fixpoint across passes)
-	sweep  bool
-	fnKey  string
+	L           *Loaded
+	DB          *SpecDB
+	smt         *SMT
+	root        *Frame
+	arrays      map[string]string // registry: array name -> sort (stable across passes)
+	grew        bool
+	obls        []*Obligation
+	notes       map[string]int // abstraction notes -> count
+	assumed     map[string]int // assumed contracts used -> count
+	typeIDs     map[string]int
+	typeOf      map[int]types.Type
+	nAlloc      int
+	nCell       int
+	entry       *State
+	loopMods    map[string]map[string]bool // loop key -> names of arrays / ghosts modified by the body (fixpoint across passes)
+	sweep       bool
+	fnKey       string
 	inlineDepth int
-	covers bool
-	inInit bool // executing a package initialiser: calls have no effect on the heap
+	covers      bool
+	curFrame    *Frame
+	private     map[*ssa.Alloc]bool
+	keyDecls    map[string]string // datatype declarations of composite map keys (stable across passes)
+	inInit      bool              // executing a package initialiser: calls have no effect on the heap
 	globalsInit map[string]bool
 }
 
 // Frame is one (possibly inlined) function activation.
 type Frame struct {
-	x      *Exec
-	fn     *ssa.Function
-	reg    map[ssa.Value]Value
-	cells  map[*ssa.Alloc]*Cell
-	params map[string]Value
-	spec   *FuncSpec
-	parent *Frame
-	edgePC map[[2]int]Term
-	loops  map[int]*loopInfo // header block index -> info
-	rets   []retInfo
-	depth  int
-	info   *types.Info
-	pkg    *types.Package
-	curPos token.Pos
-	iters  map[*ssa.Range]string // ghost name of visited set
-	iterDom map[*ssa.Range]Term  // key-set array term of the ranged map when the range started
+	x       *Exec
+	fn      *ssa.Function
+	reg     map[ssa.Value]Value
+	cells   map[*ssa.Alloc]*Cell
+	params  map[string]Value
+	spec    *FuncSpec
+	parent  *Frame
+	edgePC  map[[2]int]Term
+	loops   map[int]*loopInfo // header block index -> info
+	rets    []retInfo
+	depth   int
+	info    *types.Info
+	pkg     *types.Package
+	curPos  token.Pos
+	iters   map[*ssa.Range]string // ghost name of visited set
+	iterDom map[*ssa.Range]Term   // key-set array term of the ranged map when the range started
 }
 
 type retInfo struct {
@@ -106,7 +109,7 @@ type loopInfo struct {
 	anyCall  bool
 	spec     *LoopSpec
 	ordinal  int
-	head     *State     // state at the header after havoc (to detect what the body modifies)
+	head     *State // state at the header after havoc (to detect what the body modifies)
 	key      string
 	rangeIdx *ssa.Alloc // rangeindex cell, if a range-over-slice loop
 	lenVal   ssa.Value
@@ -142,9 +145,74 @@ func (x *Exec) setArr(st *State, name, sort string, t Term) {
 }
 
 func (x *Exec) havocAll(st *State, why string) {
+	// Local variables that live in the heap only because a local closure captures them cannot
+	// be written by an unknown callee: their values survive the havoc.
+	type saved struct {
+		p PtrV
+		v Value
+	}
+	var keep []saved
+	for f := x.curFrame; f != nil; f = f.parent {
+		for v, val := range f.reg {
+			a, ok := v.(*ssa.Alloc)
+			if !ok || !a.Heap || !x.privateAlloc(a) {
+				continue
+			}
+			if p, ok := val.(PtrV); ok && p.Cell == nil {
+				keep = append(keep, saved{p, x.load(st, p)})
+			}
+		}
+	}
 	for _, name := range sortedKeys(st.heap) {
 		st.heap[name] = x.smt.fresh(name+"@h", x.arrays[name])
 	}
+	sort.Slice(keep, func(i, j int) bool { return keep[i].p.Ref < keep[j].p.Ref })
+	for _, k := range keep {
+		x.store(st, k.p, k.v)
+	}
+}
+
+// privateAlloc: the variable's address is only loaded from, stored to, or captured by closures
+// that are themselves only called, deferred or started as goroutines by this function.
+func (x *Exec) privateAlloc(a *ssa.Alloc) bool {
+	if r, ok := x.private[a]; ok {
+		return r
+	}
+	res := true
+	if a.Referrers() != nil {
+		for _, ref := range *a.Referrers() {
+			switch r := ref.(type) {
+			case *ssa.UnOp, *ssa.DebugRef:
+			case *ssa.Store:
+				if r.Addr != ssa.Value(a) {
+					res = false
+				}
+			case *ssa.MakeClosure:
+				if r.Referrers() != nil {
+					for _, cr := range *r.Referrers() {
+						switch c := cr.(type) {
+						case *ssa.Go, *ssa.Defer, *ssa.DebugRef:
+						case *ssa.Call:
+							if c.Call.Value != ssa.Value(r) {
+								res = false
+							}
+						case *ssa.Store:
+							// stored into a local function variable: fine if that variable is private
+							if al, ok := c.Addr.(*ssa.Alloc); !ok || al == a {
+								res = false
+							}
+						default:
+							res = false
+						}
+					}
+				}
+			default:
+				res = false
+			}
+		}
+	}
+	x.private[a] = res
+	return res
 }
 
 func (x *Exec) havocGhost(st *State) {
